@@ -335,3 +335,145 @@ Theorem C07_generated_link_hyps_at_creation : forall hs b s,
   jlinked (jobs s0 j) = false /\ Inv s1 /\ ~ In j (queue s1).
 Proof. exact GenJobsEq.link_hyps_at_creation. Qed.
 Print Assumptions C07_generated_link_hyps_at_creation.
+
+(* ---- the tie to the source by translation (job store, control classes): coq/gen/GenBuilder.v is regenerated from
+   src/eascheduler/{job_stores/memory.py, job_control/*.py, builder/jobs.py, executor/base.py} on every run
+   (tools/gen_builder.py); these theorems are re-checked against it (coq/theories/GenBuilderEq.v). ---- *)
+From EAS Require GenRtBuilder SchedEqst GenBuilderEq.
+Theorem C07_generated_builder_recognised :
+  EASGen.GenBuilder.gen_builder_status_v = EASGen.GenBuilder.GenBuilderOk.
+Proof. exact GenBuilderEq.gen_builder_recognised. Qed.
+Print Assumptions C07_generated_builder_recognised.
+(* InMemoryStore.add_job: a duplicate id raises KeyError and nothing changes; otherwise the id is added and
+   `_job_finished` registered on the job's on_finished handler *)
+Theorem C07_generated_store_add_job : forall j s,
+  Sched.jstored (Sched.jobs s j) = false ->
+  EASGen.GenBuilder.g_InMemoryStore_add_job j s =
+  if Sched.store_has (Sched.jkey (Sched.jobs s j)) (Sched.store s)
+  then Some (s, GenRtJobs.JExc (GenRtJobs.JErr Base.EKeyError))
+  else Some (Sched.set_job j (Sched.with_stored (Sched.jobs s j) true)
+               (Sched.set_store ((Sched.jkey (Sched.jobs s j), j) :: Sched.store s) s), GenRtJobs.JRet).
+Proof. exact GenBuilderEq.gen_store_add_job. Qed.
+Print Assumptions C07_generated_store_add_job.
+(* InMemoryStore._job_finished is the callback the job classes' on_finished handler was taken to call ... *)
+Theorem C07_generated_store_job_finished : forall E j s,
+  EASGen.GenBuilder.g_InMemoryStore_job_finished j s =
+  if Sched.store_has (Sched.jkey (Sched.jobs s j)) (Sched.store s)
+  then GenRtJobs.call_cb E Sched.CbFin j GenRtJobs.CbStore s
+  else Some (s, GenRtJobs.JExc (GenRtJobs.JErr Base.EKeyError)).
+Proof. exact GenBuilderEq.gen_store_job_finished. Qed.
+Print Assumptions C07_generated_store_job_finished.
+(* ... and whenever job_finish of a live stored job runs it from a state with the (reachable) invariants, the id is
+   present: it never raises KeyError *)
+Theorem C07_generated_store_cb_at_finish : forall E fuel j s s1,
+  SchedApi.Inv s -> SchedStore.StoreInv s -> (j < Sched.njobs s)%nat -> Sched.jstored (Sched.jobs s j) = true ->
+  Sched.jstatus (Sched.jobs s j) <> Sched.Finished -> Sched.remove_job E fuel j s = Some s1 ->
+  EASGen.GenBuilder.g_InMemoryStore_job_finished j (GenBuilderEq.finishing j s1) =
+  GenRtJobs.call_cb E Sched.CbFin j GenRtJobs.CbStore (GenBuilderEq.finishing j s1).
+Proof. exact GenBuilderEq.gen_store_cb_at_finish. Qed.
+Print Assumptions C07_generated_store_cb_at_finish.
+(* it removes exactly the entry of that job and touches nothing else *)
+Theorem C07_generated_store_cb_removes_exactly : forall j s s',
+  SchedStore.StoreOK s -> In (Sched.jkey (Sched.jobs s j), j) (Sched.store s) ->
+  EASGen.GenBuilder.g_InMemoryStore_job_finished j s = Some (s', GenRtJobs.JRet) ->
+  (forall k i, In (k, i) (Sched.store s') <-> In (k, i) (Sched.store s) /\ i <> j) /\
+  Sched.now s' = Sched.now s /\ Sched.enabled s' = Sched.enabled s /\ Sched.timer s' = Sched.timer s /\
+  Sched.queue s' = Sched.queue s /\ Sched.jobs s' = Sched.jobs s /\ Sched.njobs s' = Sched.njobs s /\
+  Sched.log s' = Sched.log s /\ Sched.opi s' = Sched.opi s /\ Sched.broken s' = Sched.broken s.
+Proof. exact GenBuilderEq.gen_store_cb_removes_exactly. Qed.
+Print Assumptions C07_generated_store_cb_removes_exactly.
+(* the lookups: store.get(id) is the live stored job that carries the id; `in`, [], pop in terms of it *)
+Theorem C07_generated_store_get : forall s key j,
+  SchedStore.StoreOK s ->
+  (EASGen.GenBuilder.g_InMemoryStore_get key s = Some j <->
+   (j < Sched.njobs s)%nat /\ Sched.jstored (Sched.jobs s j) = true /\ Sched.jkey (Sched.jobs s j) = key /\
+   Sched.jstatus (Sched.jobs s j) <> Sched.Finished).
+Proof. exact GenBuilderEq.gen_store_get. Qed.
+Print Assumptions C07_generated_store_get.
+Theorem C07_generated_store_lookups : forall s key,
+  EASGen.GenBuilder.g_InMemoryStore_contains key s =
+    match EASGen.GenBuilder.g_InMemoryStore_get key s with Some _ => true | None => false end /\
+  EASGen.GenBuilder.g_InMemoryStore_getitem key s =
+    match EASGen.GenBuilder.g_InMemoryStore_get key s with
+    | Some j => GenRtBuilder.CVal j | None => GenRtBuilder.CExc Base.EKeyError end /\
+  EASGen.GenBuilder.g_InMemoryStore_pop key s =
+    match EASGen.GenBuilder.g_InMemoryStore_get key s with
+    | Some j => (Sched.set_store (Sched.store_remove key (Sched.store s)) s, GenRtBuilder.CVal j)
+    | None => (s, GenRtBuilder.CExc Base.EKeyError) end /\
+  EASGen.GenBuilder.g_InMemoryStore_len s = List.length (Sched.store s).
+Proof.
+  intros s key. split; [exact (GenBuilderEq.gen_store_contains s key)|].
+  split; [exact (GenBuilderEq.gen_store_getitem s key)|].
+  split; [exact (GenBuilderEq.gen_store_pop s key)|exact (GenBuilderEq.gen_store_len s)].
+Qed.
+Print Assumptions C07_generated_store_lookups.
+(* the control classes: which job method each control method calls, and nothing else *)
+Theorem C07_generated_control_calls : forall E fuel j secs s,
+  GenBuilderEq.gen_ctl_cancel E fuel j s = GenJobsEq.gen_job_finish E fuel j s /\
+  GenBuilderEq.gen_ctl_pause E fuel j s = GenJobsEq.gen_job_pause E fuel j s /\
+  GenBuilderEq.gen_ctl_resume E fuel j s = GenJobsEq.gen_job_resume E fuel j s /\
+  GenBuilderEq.gen_ctl_stop E fuel j s = GenJobsEq.gen_job_pause E fuel j s /\
+  GenBuilderEq.gen_ctl_reset E fuel j s = GenJobsEq.gen_reset E fuel j s /\
+  GenBuilderEq.gen_ctl_set_countdown E fuel j secs s = GenJobsEq.gen_set_countdown E fuel j secs s.
+Proof. exact GenBuilderEq.gen_ctl_calls. Qed.
+Print Assumptions C07_generated_control_calls.
+(* ... so on every reachable state they are the model's operations: same outcome, same state *)
+Theorem C07_generated_control_cancel : forall E fuel hs s j s' r,
+  SchedApi.Inv s -> GenJobsEq.LiveLinked s -> (j < Sched.njobs s)%nat ->
+  Sched.step_op E fuel hs s (Sched.OCancel j) = (s', r) -> r <> Sched.NoFuel ->
+  GenBuilderEq.gen_ctl_cancel E fuel j s = GenJobsEq.ret_of r s'.
+Proof. exact GenBuilderEq.gen_ctl_cancel_is_model. Qed.
+Print Assumptions C07_generated_control_cancel.
+Theorem C07_generated_control_pause : forall E fuel hs s j s' r,
+  SchedApi.Inv s -> GenJobsEq.LiveLinked s -> (j < Sched.njobs s)%nat -> Sched.jkind (Sched.jobs s j) = Sched.KAt ->
+  Sched.step_op E fuel hs s (Sched.OPause j) = (s', r) -> r <> Sched.NoFuel ->
+  GenBuilderEq.gen_ctl_pause E fuel j s = GenJobsEq.ret_of r s'.
+Proof. exact GenBuilderEq.gen_ctl_pause_is_model. Qed.
+Print Assumptions C07_generated_control_pause.
+Theorem C07_generated_control_stop : forall E fuel hs s j s' r,
+  SchedApi.Inv s -> GenJobsEq.LiveLinked s -> (j < Sched.njobs s)%nat ->
+  Sched.jkind (Sched.jobs s j) = Sched.KCountdown ->
+  Sched.step_op E fuel hs s (Sched.OPause j) = (s', r) -> r <> Sched.NoFuel ->
+  GenBuilderEq.gen_ctl_stop E fuel j s = GenJobsEq.ret_of r s'.
+Proof. exact GenBuilderEq.gen_ctl_stop_is_model. Qed.
+Print Assumptions C07_generated_control_stop.
+Theorem C07_generated_control_resume : forall E fuel hs s j s' r,
+  SchedApi.Inv s -> Sched.jkind (Sched.jobs s j) = Sched.KAt ->
+  Sched.step_op E fuel hs s (Sched.OResume j) = (s', r) -> r <> Sched.NoFuel ->
+  GenBuilderEq.gen_ctl_resume E fuel j s = GenJobsEq.ret_of r s'.
+Proof. exact GenBuilderEq.gen_ctl_resume_is_model. Qed.
+Print Assumptions C07_generated_control_resume.
+Theorem C07_generated_control_reset : forall E fuel hs s j s' r,
+  SchedApi.Inv s -> Sched.jkind (Sched.jobs s j) = Sched.KCountdown -> 0 <= Sched.jsecs (Sched.jobs s j) ->
+  Sched.step_op E fuel hs s (Sched.OReset j) = (s', r) -> r <> Sched.NoFuel ->
+  GenBuilderEq.gen_ctl_reset E fuel j s = GenJobsEq.ret_of r s'.
+Proof. exact GenBuilderEq.gen_ctl_reset_is_model. Qed.
+Print Assumptions C07_generated_control_reset.
+Theorem C07_generated_control_set_countdown : forall E fuel hs s j secs s' r,
+  Sched.jkind (Sched.jobs s j) = Sched.KCountdown ->
+  Sched.step_op E fuel hs s (Sched.OSetCountdown j secs) = (s', r) ->
+  GenBuilderEq.gen_ctl_set_countdown E fuel j secs s = GenJobsEq.ret_of r s'.
+Proof. exact GenBuilderEq.gen_ctl_set_countdown_is_model. Qed.
+Print Assumptions C07_generated_control_set_countdown.
+(* `==`, status, id, next_run_datetime *)
+Theorem C07_generated_control_eq : forall a o, EASGen.GenBuilder.g_BaseControl_eq a o = true <-> o = Some a.
+Proof. exact GenBuilderEq.gen_ctl_eq. Qed.
+Print Assumptions C07_generated_control_eq.
+Theorem C07_generated_control_properties : forall tz j s,
+  EASGen.GenBuilder.g_BaseControl_status j s = Sched.jstatus (Sched.jobs s j) /\
+  EASGen.GenBuilder.g_BaseControl_id j s = Sched.jkey (Sched.jobs s j) /\
+  EASGen.GenBuilder.g_BaseControl_next_run_datetime tz j s = option_map tz (Sched.jnext (Sched.jobs s j)).
+Proof. exact GenBuilderEq.gen_ctl_properties. Qed.
+Print Assumptions C07_generated_control_properties.
+Theorem C07_generated_control_status_next : forall tz j s,
+  SchedApi.Inv s ->
+  (EASGen.GenBuilder.g_BaseControl_status j s = Sched.Running <->
+   EASGen.GenBuilder.g_BaseControl_next_run_datetime tz j s <> None).
+Proof. exact GenBuilderEq.gen_ctl_status_next. Qed.
+Print Assumptions C07_generated_control_status_next.
+(* the hypotheses of the theorems above hold in every reachable state *)
+Theorem C07_generated_builder_hyps_reachable : forall E fuel hs t0 en ops s rs,
+  Sched.run E fuel hs (Sched.init t0 en) ops = (s, rs) -> ~ In Sched.NoFuel rs ->
+  SchedApi.Inv s /\ GenJobsEq.LiveLinked s /\ SchedStore.StoreInv s.
+Proof. exact GenBuilderEq.gen_builder_hyps_reachable. Qed.
+Print Assumptions C07_generated_builder_hyps_reachable.
